@@ -335,6 +335,8 @@ def sunfrac(vc):
             w = np.cross(u, [0.3, -0.5, 0.8])
             w = w / np.linalg.norm(w)
             r = nr_ * (np.cos(phi) * u + np.sin(phi) * w)
+        elif vc.bool("on_antisolar_axis"):  # dead centre of the umbra: the cosine of the Sun-Earth separation is 1 up to rounding (either side of it)
+            r = -s * (nr_ / np.linalg.norm(s))
     vc.assume(vc.dot(r, r) >= Fraction(RE) ** 2)  # exact square (RE**2 as a double is slightly smaller)
     d = s - r
     vc.assume(vc.dot(d, d) >= Fraction(rs) ** 2)
